@@ -25,7 +25,7 @@ from tasks_core import dump_expr, dump_cond, dump_program, classify_exception
 
 
 def _rat(v):
-    v = sp.nsimplify(sp.simplify(v)) if not getattr(v, "is_Rational", False) else v
+    v = exppoly.exact(v) if not getattr(v, "is_Rational", False) else v
     if v.is_Rational:
         return f"{v.p}/{v.q}"
     if v in (sp.oo, -sp.oo, sp.zoo, sp.nan):
@@ -93,8 +93,8 @@ def dump_system(solver, nvals, subs):
            "vector": [str(x) for x in recs.init_values_vector]}
     inst = {"point": {}}
     try:
-        inst["A"] = [[str(sp.nsimplify(sp.sympify(x).subs(subs))) for x in row] for row in out["matrix"]]
-        inst["v"] = [str(sp.nsimplify(sp.sympify(x).subs(subs))) for x in out["vector"]]
+        inst["A"] = [[str(exppoly.exact(sp.sympify(x).subs(subs))) for x in row] for row in out["matrix"]]
+        inst["v"] = [str(exppoly.exact(sp.sympify(x).subs(subs))) for x in out["vector"]]
         inst["cf"] = enc_cf(closed_form_data(comp, n_i, subs, 0))
     except Unsupported as u:
         inst["unsupported"] = str(u)
@@ -112,11 +112,11 @@ def expansion(poly):
     """the monomials get_moment_poly asks moments for, with their coefficients, and the constant term"""
     from utils.expressions import get_monoms
     e = poly.expand()
-    terms = [[str(sp.nsimplify(sp.sympify(str(c)))), str(m), dump_expr(m)] for c, m in get_monoms(e)]
+    terms = [[str(exppoly.exact(sp.sympify(str(c)))), str(m), dump_expr(m)] for c, m in get_monoms(e)]
     const = e
     for c, m in get_monoms(e):
         const = const - c * m
-    return terms, str(sp.nsimplify(sp.sympify(str(const.expand()))))
+    return terms, str(exppoly.exact(sp.sympify(str(const.expand()))))
 
 
 def task_afterloop(task):
